@@ -5,6 +5,8 @@ Theorems (lean/PpciVerif/Props/C05.lean), each tied to /repo by a differential r
   * riscv constant materialisation: Li and the two rvc CONSTI32 patterns leave v mod 2^32 in rd (Spec.RV32)
   * determine_arg_locations of arm / riscv: locations pairwise distinct
   * PeepHoleStream is the identity on streams without effect()-bearing instructions (every target but x86-64)
+  * register conventions of riscv / arm: regen() dumps callee_save, call clobbers, argument/return and allocatable registers of the live
+    arch objects into Gen/RVABI.lean, Gen/ARMABI.lean; `decide` theorems (no allocatable register is preserved by nobody, callee_save = psABI)
   * riscv prologue/epilogue stack discipline (stack machine); real lists decoded and run in Spec.RV32 around an adversarial body
 Always-on failing-input search (NO theorem):
   * riscv / riscv:rvc: generated IR modules (and C front-end output) are compiled and linked by ppci, the image is
@@ -35,7 +37,10 @@ LEVEL_TEXT = (
     "keeps sp and the save area (it may clobber every other register and all other memory), epilogue after body after prologue "
     "restores sp, ra, fp and every saved register - on a word-granular stack machine over the modelled instruction lists; the real "
     "gen_prologue/gen_epilogue byte strings are decoded against the model and executed by Spec.RV32 around an adversarial body on "
-    "every run. Cited, proved under other "
+    "every run; (6) register conventions, as tables regenerated from the live riscv / riscv:rvc / riscv:rvf / arm / arm:thumb "
+    "architecture objects on every run and checked by `decide`: every allocatable register is either clobbered by the emitted call "
+    "instruction or in callee_save (arm: or the frame pointer), riscv callee_save is exactly the psABI set s0-s11 within the "
+    "allocatable registers, argument and return registers are a0-a7 and declared clobbered. Cited, proved under other "
     "properties: register allocation validated per frame on each target (C06), riscv/arm/thumb encodings, fields and relocations "
     "(C08, C10, C11), linker layout (C12). Everything else is covered only by a failing-input search that proves nothing: riscv "
     "and riscv:rvc images of generated IR functions executed in the Lean RV32 interpreter, and x86-64 code executed natively, "
@@ -59,6 +64,7 @@ RULE = ("eval_frame_alloc_* = one allocation history (fixed + random: sizes 1..1
 TRUSTED = [
     "hand models Model.FrameAlloc, Model.RVLi, Model.ArgLoc, Model.Peephole, Model.RVFrame (tied by differential runs on every check)",
     "the frame theorem's machine is a word-granular stack machine (Model.RVFrame.exec), not Spec.RV32; the link to Spec.RV32 is the per-run execution of the real byte strings",
+    "Spec.RVABI (register roles of the RISC-V psABI, written from the psABI document); translator regen() in harness/c05.py (dumps live tables into Gen/*.lean)",
     "Spec.RV32 (RV32IMC decode + step, from the ISA manual, validated against llvm-mc by C08) and Spec.IR (reference IR semantics, notes/IR.md)",
     "ppci's own linker and the layout used to build the riscv images (C11/C12 cover it)",
     "harness/irgen.py, harness/irser.py, harness/irrun.py (generator, structural serialiser, native runner)",
@@ -72,6 +78,50 @@ ASSUMPTIONS = [
 
 RV_LAYOUT = ("MEMORY code LOCATION=0x1000 SIZE=0x6000 { SECTION(code) }\n"
              "MEMORY ram LOCATION=0x8000 SIZE=0x4000 { SECTION(data) }\n")
+
+
+# ---- translation: the register conventions of the live arch objects ---------------------------------------------
+
+def _conv(march):
+    """(allocatable, callee_save, clobbers of the real call instruction, argument registers, return register, frame pointer) as numbers"""
+    from ppci.api import get_arch
+    from ppci import ir
+    from ppci.arch.registers import Register
+    arch = get_arch(march)
+    alloc = sorted({r.num for rc in arch.info.register_classes for r in (rc.registers or []) if rc.name in ("reg", "loreg")})
+    callee = [r.num for r in arch.callee_save]
+    frame = arch.new_frame("regen", None)
+    calls = [i for i in arch.gen_call(frame, "callee", [], None) if getattr(i, "clobbers", None)]
+    if len(calls) != 1:
+        raise ValueError(f"{march}: gen_call emitted {len(calls)} instructions with clobbers")
+    clob = [r.num for r in calls[0].clobbers]
+    args = [l.num for l in arch.determine_arg_locations([ir.i32] * 12) if isinstance(l, Register)]
+    rv = arch.determine_rv_location(ir.i32).num
+    return alloc, callee, clob, args, rv, arch.fp.num
+
+
+def _gen_text(ns, marches, header):
+    def lst(xs):
+        return "[" + ", ".join(str(x) for x in xs) + "]"
+    out = [f"/-! GENERATED by harness/c05.py:regen from the live ppci architecture objects - do not edit.\n{header} -/", f"namespace Gen.{ns}", ""]
+    for march in marches:
+        alloc, callee, clob, args, rv, fp = _conv(march)
+        n = march.replace(":", "_")
+        out += [f"/-- `{march}`: registers of the allocatable integer classes -/", f"def {n}_allocatable : List Nat := {lst(alloc)}",
+                f"def {n}_calleeSave : List Nat := {lst(callee)}",
+                f"/-- `clobbers` of the call instruction that `gen_call` emits -/", f"def {n}_callClobbers : List Nat := {lst(clob)}",
+                f"def {n}_argRegs : List Nat := {lst(args)}", f"def {n}_retReg : Nat := {rv}", f"def {n}_fp : Nat := {fp}", ""]
+    out.append(f"end Gen.{ns}")
+    return "\n".join(out) + "\n"
+
+
+def regen(ctx):
+    for ns, marches, header in (("RVABI", ["riscv", "riscv:rvc", "riscv:rvf"], "RISC-V: `arch.callee_save`, the clobbers of the emitted call, argument/return registers, allocatable registers."),
+                                ("ARMABI", ["arm", "arm:thumb"], "ARM / Thumb (ppci's own convention: arguments in R1-R4, result in R0).")):
+        text = _gen_text(ns, marches, header)
+        path = common.LEAN / "PpciVerif" / "Gen" / f"{ns}.lean"
+        if not path.exists() or path.read_text() != text:
+            path.write_text(text)
 
 
 # ---- corpus -----------------------------------------------------------------------------------------
@@ -280,6 +330,16 @@ int h7(int a, int b, int c, int d, int e, int f, int g) { gacc[1] = gacc[1] ^ g;
 int h10(int a, int b, int c, int d, int e, int f, int g, int h, int i, int j) { return a - b + c - d + e - f + g - h + i * 3 - j * 5; }
 int g2(int x, int y) { int p = x * 3 + 1; int q = y * 5 + 2; int r = x - y; int s = x ^ y; int t = h8(p, q, r, s, x, y, p + q, r + s); int u = h7(t, p, q, r, s, x, y); return t + u + p * q + r * s; }
 int g3(int x, int y, int z) { int p = x + y; int q = y + z; int r = z + x; int t = h10(p, q, r, x, y, z, p ^ q, q ^ r, r ^ p, 7); gacc[2] = gacc[2] + t; return t * 3 + p + q * 5 + r * 7 + g2(p, r); }
+int tab[16] = { 3, -5, 7, 11, -13, 17, 19, -23, 29, 31, -37, 41, 43, 47, -53, 59 };
+int g12(int x) { int a0 = tab[0] + x; int a1 = tab[1] ^ x; int a2 = tab[2] - x; int a3 = tab[3] * x; int a4 = tab[4] + x * 3; int a5 = tab[5] ^ (x + 1);
+  int a6 = tab[6] - x * 5; int a7 = tab[7] + x * 7; int a8 = tab[8] ^ (x * 9); int a9 = tab[9] - x * 11; int a10 = tab[10] + x * 13; int a11 = tab[11] ^ (x * 15); int a12 = tab[12] - x * 17;
+  int t = h8(a0, a1, a2, a3, a4, a5, a6, a7);
+  return t + a0 + a1 * 2 + a2 * 3 + a3 * 4 + a4 * 5 + a5 * 6 + a6 * 7 + a7 * 8 + a8 * 9 + a9 * 10 + a10 * 11 + a11 * 12 + a12 * 13; }
+int f12(int x) { int b0 = tab[4] * x; int b1 = tab[5] + x; int b2 = tab[6] ^ x; int b3 = tab[7] - x; int b4 = tab[8] * x + 1; int b5 = tab[9] + x * 2; int b6 = tab[10] ^ (x * 3);
+  int b7 = tab[11] - x * 4; int b8 = tab[12] + x * 5; int b9 = tab[13] ^ (x * 6); int b10 = tab[14] - x * 7; int b11 = tab[15] + x * 8; int b12 = tab[0] ^ (x * 9);
+  int t = g12(x + 1);
+  int u = g12(t & 255);
+  return (t ^ u) + b0 + b1 * 3 + b2 * 5 + b3 * 7 + b4 * 9 + b5 * 11 + b6 * 13 + b7 * 15 + b8 * 17 + b9 * 19 + b10 * 21 + b11 * 23 + b12 * 25; }
 int f(int a, int b) { int k1 = a * 7 + 3; int k2 = b * 11 + 5; int k3 = a - b; int k4 = a ^ (b * 2); int k5 = a + b; int v = g2(k1, k2); int w = g2(k3, k4); return v + 2 * w + k1 + k2 * 3 + k3 * 5 + k4 * 7 + k5 * 9; }
 int f2(int a) { int i; int s = 0; int m = a * 3 + 1; for (i = 0; i < 3; i = i + 1) { s = s + g2(a + i, m) + m * i; m = m + s; } return s + m; }
 int f3(int a, int b, int c) { int k1 = a * b; int k2 = b * c; int k3 = c * a; int k4 = a + b + c; int v = g3(a, b, c); int w = g3(k1, k2, k3); int u = g2(v, w); return u + v * 3 + w * 5 + k1 + k2 * 7 + k3 * 9 + k4 * 11; }
@@ -297,9 +357,10 @@ def chain_modules(levels):
         api.optimize(m, level=lvl)
         m.debug_db = None
         m.name = f"c05_chain_O{lvl}"
-        ents = {n: irgen.Entry(n, [ir.i32] * k, ir.i32, True) for n, k in (("f", 2), ("f2", 1), ("f3", 3), ("g2", 2))}
+        ents = {n: irgen.Entry(n, [ir.i32] * k, ir.i32, True) for n, k in (("f", 2), ("f2", 1), ("f3", 3), ("g2", 2), ("f12", 1), ("g12", 1))}
         cases = [(ents["f"], [1, -1]), (ents["f"], [0, 0]), (ents["f"], [123456, -7]), (ents["f2"], [5]), (ents["f2"], [-9]),
-                 (ents["f3"], [1, 2, 3]), (ents["f3"], [-5, 70000, 11]), (ents["g2"], [3, 4])]
+                 (ents["f3"], [1, 2, 3]), (ents["f3"], [-5, 70000, 11]), (ents["g2"], [3, 4]),
+                 (ents["f12"], [1]), (ents["f12"], [-77]), (ents["f12"], [123456]), (ents["g12"], [5])]
         out.append((irgen.Generated(m, list(ents.values()), []), cases, f"c-chain-O{lvl}"))
     return out
 
